@@ -10,7 +10,9 @@ Regenerated on every run from the current working tree (pure `ast`; nothing is i
     (which methods assign which `self.<hp>`, and every `_build/_rebuild/setattr` call there).
 Anything the reader does not recognise becomes `.unknown "<source>"`, which no expected term contains.
 """
-import ast, os, re
+import ast, os, re, sys
+sys.path.insert(0, os.path.dirname(os.path.abspath(__file__)))
+import inline
 
 REPO = os.environ.get('VERIF_REPO', '/repo')
 
@@ -20,6 +22,7 @@ FN1 = {'np.sqrt': 'sqrt', 'np.exp': 'exp', 'np.log': 'log', 'np.sin': 'sin', 'np
        'sqrt': 'sqrt', 'math.sqrt': 'sqrt', 'exp': 'exp', 'math.exp': 'exp', 'log': 'log', 'math.log': 'log',
        'fabs': 'abs', 'math.fabs': 'abs'}
 RED = {'np.sum': 'sum', 'np.prod': 'prod'}
+BIN2 = {'np.add': 'add', 'np.subtract': 'sub', 'np.multiply': 'mul', 'np.divide': 'div', 'np.true_divide': 'div'}
 
 
 def lean_str(s):
@@ -108,6 +111,12 @@ class Reader:
             f = ast.unparse(n.func)
             if n.keywords and not (f == 'np.linalg.norm'):
                 return self.unknown(n)
+            if f in BIN2 and len(n.args) == 2:
+                return f'(.{BIN2[f]} {E(n.args[0])} {E(n.args[1])})'
+            if f == 'np.power' and len(n.args) == 2:
+                return E(ast.BinOp(left=n.args[0], op=ast.Pow(), right=n.args[1]))
+            if f == 'np.negative' and len(n.args) == 1:
+                return f'(.neg {E(n.args[0])})'
             if f in FN1 and len(n.args) == 1:
                 return f'(.fn .{FN1[f]} {E(n.args[0])})'
             if f in RED and len(n.args) == 1:
@@ -152,13 +161,13 @@ class Reader:
 
 def module_funcs(path):
     src = open(path).read()
-    t = ast.parse(src)
+    t = inline.parse(path)
     return src, {f.name: f for f in t.body if isinstance(f, ast.FunctionDef)}
 
 
 def classes_of(path):
     src = open(path).read()
-    t = ast.parse(src)
+    t = inline.parse(path)
     return src, {c.name: c for c in t.body if isinstance(c, ast.ClassDef)}
 
 
@@ -170,7 +179,8 @@ def method(cls, name):
 def extract_benchmarks():
     src, funcs = module_funcs(f'{REPO}/opytimizer/math/benchmark.py')
     r = Reader(src, funcs)
-    return [(name, r.body(f)) for name, f in funcs.items()]
+    pin = inline.pinned().get('opytimizer/math/benchmark.py', {}).get('<module>', [])
+    return [(name, r.body(f)) for name, f in funcs.items() if not (name.startswith('_') and name not in pin)]
 
 
 def extract_span():
